@@ -293,3 +293,627 @@ Proof. destruct k; cbn; try tauto; intros [<-|[]]; eauto. Qed.
 
 Lemma holds_wants_group k : holds k <> [] -> exists c g m, wants k = ((LGroup, c, g), m).
 Proof. destruct k; cbn; try congruence; eauto. Qed.
+
+(* ---------------------------------------------------------------------------------------------- *)
+(* the inductive invariant over global states                                                      *)
+(* ---------------------------------------------------------------------------------------------- *)
+Lemma clock_eqb_refl l : clock_eqb l l = true.
+Proof. destruct l as [[a c] g]. cbn. rewrite !Z.eqb_refl. destruct a; reflexivity. Qed.
+
+Lemma stops_false_same want h : stops want h = false -> fst want = fst h -> snd want = MR /\ snd h = MR.
+Proof.
+  unfold stops. intros H E. rewrite E, clock_eqb_refl in H. cbn in H. apply orb_false_iff in H. destruct H as [H1 H2].
+  destruct (snd want), (snd h); cbn in *; try discriminate; auto.
+Qed.
+
+Lemma others_stop_false want ws s i :
+  others_stop want ws s i = false ->
+  forall j wj, nth_error ws j = Some wj -> (s + j)%nat <> i -> forall h, In h (w_holds wj) -> stops want h = false.
+Proof.
+  revert s. induction ws as [|a r IH]; intros s H j wj Hj Hne h Hin; [destruct j; discriminate|].
+  cbn in H. apply orb_false_iff in H. destruct H as [H1 H2]. destruct j as [|j]; cbn in Hj.
+  - inversion Hj; subst a. assert (E : Nat.eqb s i = false) by (apply Nat.eqb_neq; lia). rewrite E in H1. cbn in H1.
+    destruct (stops want h) eqn:S; [|reflexivity]. exfalso.
+    assert (X : existsb (stops want) (w_holds wj) = true) by (apply existsb_exists; eauto). congruence.
+  - apply (IH (S s) H2 j wj Hj); [lia | exact Hin].
+Qed.
+
+Lemma others_stop_none want ws s i :
+  (forall j wj, nth_error ws j = Some wj -> (s + j)%nat <> i -> forall h, In h (w_holds wj) -> stops want h = false) ->
+  others_stop want ws s i = false.
+Proof.
+  revert s. induction ws as [|a r IH]; intros s H; [reflexivity|]. cbn. apply orb_false_iff. split.
+  - destruct (Nat.eqb s i) eqn:E; [reflexivity|]. cbn. apply Nat.eqb_neq in E.
+    destruct (existsb (stops want) (w_holds a)) eqn:X; [|reflexivity]. apply existsb_exists in X. destruct X as (h & Hin & Hs).
+    rewrite (H O a eq_refl ltac:(lia) h Hin) in Hs. discriminate.
+  - apply IH. intros j wj Hj Hne h Hin. apply (H (S j) wj Hj); [lia | exact Hin].
+Qed.
+
+Section Global.
+  Variable cf : config.
+  Variable now : Z.
+
+  Definition concerns (w : worker) (c g : Z) : Prop :=
+    (exists k, w_run w = Some k /\ cont_group k = Some (c, g)) \/
+    (exists r, In r (w_queue w) /\ keyed_group r = Some (c, g)).
+
+  Record inv (gs : gstate) : Prop := mkInv {
+    inv_ok : forall i w k, nth_error (g_ws gs) i = Some w -> w_run w = Some k -> cont_ok (g_st gs) k;
+    inv_aff : forall i j wi wj c g, nth_error (g_ws gs) i = Some wi -> nth_error (g_ws gs) j = Some wj ->
+              concerns wi c g -> concerns wj c g -> i = j;
+    inv_excl : forall i j wi wj l mi mj, i <> j -> nth_error (g_ws gs) i = Some wi -> nth_error (g_ws gs) j = Some wj ->
+               In (l, mi) (w_holds wi) -> In (l, mj) (w_holds wj) -> mi = MR /\ mj = MR;
+    inv_wf : forall i w r, nth_error (g_ws gs) i = Some w -> In r (w_queue w) -> wf_req r }.
+
+  (* replacing worker i *)
+  Lemma inv_update gs i w w' st' cr pr :
+    inv gs -> nth_error (g_ws gs) i = Some w ->
+    (forall k', w_run w' = Some k' -> cont_ok st' k') ->
+    (forall c g, concerns w' c g -> concerns w c g) ->
+    (forall l m, In (l, m) (w_holds w') ->
+       In (l, m) (w_holds w) \/
+       (forall j wj, j <> i -> nth_error (g_ws gs) j = Some wj -> forall mj, In (l, mj) (w_holds wj) -> m = MR /\ mj = MR)) ->
+    (forall r, In r (w_queue w') -> In r (w_queue w)) ->
+    (forall j wj kj, j <> i -> nth_error (g_ws gs) j = Some wj -> w_run wj = Some kj -> cont_ok (g_st gs) kj -> cont_ok st' kj) ->
+    inv (mkG st' (set_nth (g_ws gs) i w') cr pr).
+  Proof.
+    intros [Iok Iaff Iex Iwf] Hi Hok' Hconc Hholds Hq Hothers.
+    pose proof (nth_error_lt _ _ _ Hi) as Hlt.
+    assert (G : forall j x, nth_error (set_nth (g_ws gs) i w') j = Some x ->
+                (j = i /\ x = w') \/ (j <> i /\ nth_error (g_ws gs) j = Some x)).
+    { intros j x Hj. destruct (Nat.eq_dec j i) as [->|N].
+      - rewrite sn_eq in Hj by exact Hlt. inversion Hj. auto.
+      - rewrite sn_neq in Hj by congruence. auto. }
+    constructor; cbn [g_ws g_st].
+    - intros j x k Hj Hr. destruct (G j x Hj) as [[-> ->]|[N Hj']]; [auto|]. eapply Hothers; eauto.
+    - intros a b wa wb c g Ha Hb Ca Cb.
+      destruct (G a wa Ha) as [[-> ->]|[Na Ha']]; destruct (G b wb Hb) as [[-> ->]|[Nb Hb']]; auto.
+      + apply (Iaff i b w wb c g); auto.
+      + apply (Iaff a i wa w c g); auto.
+      + apply (Iaff a b wa wb c g); auto.
+    - intros a b wa wb l ma mb Hab Ha Hb Ia Ib.
+      destruct (G a wa Ha) as [[-> ->]|[Na Ha']]; destruct (G b wb Hb) as [[-> ->]|[Nb Hb']]; try congruence.
+      + destruct (Hholds l ma Ia) as [Old|New]; [apply (Iex i b w wb l ma mb); auto | apply (New b wb); auto].
+      + destruct (Hholds l mb Ib) as [Old|New]; [apply (Iex a i wa w l ma mb); auto|].
+        destruct (New a wa Na Ha' ma Ia); auto.
+      + apply (Iex a b wa wb l ma mb); auto.
+    - intros j x r Hj Hin. destruct (G j x Hj) as [[-> ->]|[N Hj']]; [apply (Iwf i w r Hi); auto | apply (Iwf j x r Hj' Hin)].
+  Qed.
+
+  Lemma others_survive gs i w k prio st' :
+    inv gs -> nth_error (g_ws gs) i = Some w -> w_run w = Some k ->
+    others_stop (wants k) (g_ws gs) O i = false ->
+    res_state (exec cf now true prio (g_st gs) k) = Some st' ->
+    forall j wj kj, j <> i -> nth_error (g_ws gs) j = Some wj -> w_run wj = Some kj -> cont_ok (g_st gs) kj -> cont_ok st' kj.
+  Proof.
+    intros I Hi Hk Hns Hex j wj kj Hne Hj Hkj (Hcl & Hneed & Hshape).
+    destruct (exec_effect cf now true prio _ _ _ Hex) as [Hc Hp].
+    split; [apply Hc; exact Hcl | split; [|exact Hshape]].
+    intros g Hin. apply Hp; [apply Hneed; exact Hin|]. intros Hr.
+    pose proof (removes_group _ _ _ Hr) as Hg.
+    destruct (needs_cases kj g Hin) as [Hgj|Hhold].
+    - apply Hne. symmetry. apply (inv_aff gs I i j w wj (cont_cluster kj) g Hi Hj); left; eauto.
+    - destruct (removes_lock _ _ _ Hr) as [Hw|Hh].
+      + assert (S : stops (wants k) ((LConsumer, cont_cluster kj, 0), MR) = false).
+        { apply (others_stop_false _ _ _ _ Hns j wj Hj); [cbn; lia|]. unfold w_holds. rewrite Hkj. exact Hhold. }
+        rewrite Hw in S. unfold stops in S. cbn [fst snd] in S. rewrite clock_eqb_refl in S. discriminate.
+      + assert (X : MW = MR /\ MR = MR).
+        { apply (inv_excl gs I i j w wj (LConsumer, cont_cluster kj, 0) MW MR); auto; unfold w_holds.
+          - rewrite Hk. exact Hh.
+          - rewrite Hkj. exact Hhold. }
+        destruct X; discriminate.
+  Qed.
+
+  Lemma concerns_shrink w w' :
+    (forall k', w_run w' = Some k' -> exists k, w_run w = Some k /\ (cont_group k' = cont_group k \/ cont_group k' = None)) ->
+    (forall r, In r (w_queue w') -> In r (w_queue w)) ->
+    forall c g, concerns w' c g -> concerns w c g.
+  Proof.
+    intros Hr Hq c g [(k' & Hk' & Hg)|(r & Hin & Hg)].
+    - destruct (Hr k' Hk') as (k & Hk & [E|E]); [left; exists k; split; [exact Hk | congruence] | congruence].
+    - right. exists r. split; [apply Hq; exact Hin | exact Hg].
+  Qed.
+
+  (* every step of the scheduler preserves the invariant and does not crash (tree after the C08 fix: commits) *)
+  Theorem inv_step gs i gs' t :
+    inv gs -> g_crashed gs = false -> sched_step cf now true gs i = (gs', t) -> inv gs' /\ g_crashed gs' = false.
+  Proof.
+    intros I Hnc H. unfold sched_step in H. rewrite Hnc in H.
+    destruct (nth_error (g_ws gs) i) as [w|] eqn:Hi; [|inversion H; subst; auto].
+    destruct (w_run w) as [k|] eqn:Hk.
+    - (* a parked handler takes its lock and runs to the next one *)
+      destruct (others_stop (wants k) (g_ws gs) O i) eqn:Hns; [inversion H; subst; auto|].
+      pose proof (inv_ok gs I i w k Hi Hk) as Hok.
+      destruct (exec cf now true (hd [] (g_prios gs)) (g_st gs) k) as [st' k'|st' rep|] eqn:Hex.
+      + inversion H; subst; clear H. split; [|reflexivity].
+        eapply inv_update; eauto; cbn [w_run w_queue w_holds].
+        * intros k0 E. inversion E; subst. eapply exec_establishes; eauto.
+        * apply concerns_shrink; cbn; [|auto]. intros k0 E. inversion E; subst. exists k. split; [exact Hk|].
+          eapply exec_group; eauto.
+        * intros l m Hin. destruct (exec_holds _ _ _ _ _ _ _ _ Hex (l, m) Hin) as [Old|New].
+          -- left. unfold w_holds. rewrite Hk. exact Old.
+          -- right. intros j wj Hne Hj mj Hinj.
+             assert (S : stops (wants k) (l, mj) = false) by (apply (others_stop_false _ _ _ _ Hns j wj Hj); [cbn; lia | exact Hinj]).
+             rewrite <- New in S. apply (stops_false_same _ _ S). reflexivity.
+        * eapply others_survive; eauto. rewrite Hex. reflexivity.
+      + inversion H; subst; clear H. split; [|reflexivity].
+        eapply inv_update; eauto; cbn [w_run w_queue w_holds].
+        * intros k0 E. discriminate.
+        * apply concerns_shrink; cbn; [|auto]. intros k0 E. discriminate.
+        * intros l m [].
+        * eapply others_survive; eauto. rewrite Hex. reflexivity.
+      + exfalso. eapply exec_no_crash; eauto.
+    - (* an idle worker starts its next request *)
+      destruct (w_queue w) as [|r q] eqn:Hq; [inversion H; subst; auto|].
+      assert (Hwf : wf_req r) by (apply (inv_wf gs I i w r Hi); rewrite Hq; left; reflexivity).
+      destruct (start cf now (g_st gs) r) as [st' k'|st' rep|] eqn:Hst.
+      + destruct (start_establishes _ _ _ _ _ _ Hst Hwf) as (Hok & -> & Hh & Hg).
+        inversion H; subst; clear H. split; [|reflexivity].
+        eapply inv_update; eauto; cbn [w_run w_queue w_holds].
+        * intros k0 E. inversion E; subst. exact Hok.
+        * intros c g [(k0 & E & Hc)|(r0 & Hin & Hc)].
+          -- inversion E; subst. right. exists r. split; [rewrite Hq; left; reflexivity | congruence].
+          -- right. exists r0. split; [rewrite Hq; right; exact Hin | exact Hc].
+        * rewrite Hh. intros l m [].
+        * intros r0 Hin. rewrite Hq. right. exact Hin.
+      + assert (st' = g_st gs) by (apply (start_state cf now (g_st gs) r); rewrite Hst; reflexivity). subst st'.
+        inversion H; subst; clear H. split; [|reflexivity].
+        eapply inv_update; eauto; cbn [w_run w_queue w_holds].
+        * intros k0 E. discriminate.
+        * intros c g [(k0 & E & Hc)|(r0 & Hin & Hc)]; [discriminate|].
+          right. exists r0. split; [rewrite Hq; right; exact Hin | exact Hc].
+        * intros l m [].
+        * intros r0 Hin. rewrite Hq. right. exact Hin.
+      + exfalso. eapply start_no_crash; eauto.
+  Qed.
+End Global.
+
+(* ---------------------------------------------------------------------------------------------- *)
+(* theorems over all schedules                                                                     *)
+(* ---------------------------------------------------------------------------------------------- *)
+Section Top.
+  Variable cf : config.
+  Variable now : Z.
+
+  (* what the router guarantees about the initial queues, and well-formed broker requests *)
+  Definition wf_queues (queues : list (list req)) : Prop :=
+    (forall i j qi qj ri rj c g, nth_error queues i = Some qi -> nth_error queues j = Some qj ->
+        In ri qi -> In rj qj -> keyed_group ri = Some (c, g) -> keyed_group rj = Some (c, g) -> i = j) /\
+    (forall q r, In q queues -> In r q -> wf_req r).
+
+  Lemma inv_init st queues prios : wf_queues queues -> inv (init_g st queues prios).
+  Proof.
+    intros [Haff Hwf]. unfold init_g.
+    assert (G : forall i w, nth_error (map (fun q => mkWorker q None []) queues) i = Some w ->
+                exists q, nth_error queues i = Some q /\ w = mkWorker q None []).
+    { intros i w H. rewrite nth_error_map in H. destruct (nth_error queues i) as [q|]; [|discriminate]. inversion H. eauto. }
+    constructor; cbn [g_ws g_st].
+    - intros i w k Hi Hk. destruct (G i w Hi) as (q & _ & ->). discriminate.
+    - intros i j wi wj c g Hi Hj Ci Cj. destruct (G i wi Hi) as (qi & Hqi & ->). destruct (G j wj Hj) as (qj & Hqj & ->).
+      destruct Ci as [(k & E & _)|(ri & Hri & Gi)]; [discriminate|]. destruct Cj as [(k & E & _)|(rj & Hrj & Gj)]; [discriminate|].
+      eapply Haff; eauto.
+    - intros i j wi wj l mi mj _ Hi _ Ii _. destruct (G i wi Hi) as (q & _ & ->). destruct Ii.
+    - intros i w r Hi Hin. destruct (G i w Hi) as (q & Hq & ->). apply (Hwf q r); [eapply nth_error_In; eauto | exact Hin].
+  Qed.
+
+  Lemma sched_run_inv sched : forall gs gs' ts,
+    inv gs -> g_crashed gs = false -> sched_run cf now true gs sched = (gs', ts) -> inv gs' /\ g_crashed gs' = false.
+  Proof.
+    induction sched as [|i rest IH]; intros gs gs' ts I Hc H; cbn in H.
+    - inversion H; subst; auto.
+    - destruct (sched_step cf now true gs i) as [gs1 t] eqn:E1.
+      destruct (sched_run cf now true gs1 rest) as [gs2 ts2] eqn:E2. inversion H; subst.
+      destruct (inv_step cf now gs i gs1 t I Hc E1) as [I1 Hc1]. eapply IH; eauto.
+  Qed.
+
+  (* (a) no crash: whatever the schedule, the number of workers, the queues the router may produce *)
+  Theorem conc_no_crash_proof st queues prios sched :
+    wf_queues queues -> g_crashed (fst (sched_run cf now true (init_g st queues prios) sched)) = false.
+  Proof.
+    intros Hwf. destruct (sched_run cf now true (init_g st queues prios) sched) as [gs ts] eqn:E. cbn.
+    destruct (sched_run_inv sched _ _ _ (inv_init st queues prios Hwf) eq_refl E) as [_ Hc]. exact Hc.
+  Qed.
+
+  (* same-group requests stay with one worker in every reachable state *)
+  Theorem conc_group_one_worker_proof st queues prios sched :
+    wf_queues queues ->
+    let gs := fst (sched_run cf now true (init_g st queues prios) sched) in
+    forall i j wi wj c g, nth_error (g_ws gs) i = Some wi -> nth_error (g_ws gs) j = Some wj ->
+      concerns wi c g -> concerns wj c g -> i = j.
+  Proof.
+    intros Hwf. destruct (sched_run cf now true (init_g st queues prios) sched) as [gs ts] eqn:E. cbn.
+    destruct (sched_run_inv sched _ _ _ (inv_init st queues prios Hwf) eq_refl E) as [I _]. apply (inv_aff gs I).
+  Qed.
+
+  (* deadlock freedom at lock granularity: while there is work, some worker can take its next step *)
+  Theorem conc_deadlock_free_proof gs : unfinished gs = true -> exists i, enabled gs i = true.
+  Proof.
+    intros Hu. unfold unfinished in Hu.
+    destruct (existsb (fun w => match w_holds w with [] => false | _ => true end) (g_ws gs)) eqn:Hh.
+    - (* somebody holds a lock while parked: it waits for a group lock, which no parked worker holds *)
+      apply existsb_exists in Hh. destruct Hh as (w & Hin & Hne). apply In_nth_error in Hin. destruct Hin as (i & Hi).
+      exists i. unfold enabled. rewrite Hi. unfold w_holds in Hne. destruct (w_run w) as [k|] eqn:Hk; [|discriminate].
+      destruct (holds_wants_group k) as (c & g & m & Hw); [destruct (holds k); [discriminate | discriminate]|].
+      rewrite others_stop_none; [reflexivity|]. intros j wj Hj _ h Hinh. unfold w_holds in Hinh.
+      destruct (w_run wj) as [kj|]; [|destruct Hinh]. destruct (holds_consumer kj h Hinh) as (c' & m' & ->).
+      rewrite Hw. reflexivity.
+    - (* nobody holds anything: every worker with work is enabled *)
+      apply existsb_exists in Hu. destruct Hu as (w & Hin & Hw). apply In_nth_error in Hin. destruct Hin as (i & Hi).
+      exists i. unfold enabled. rewrite Hi. unfold has_work in Hw. destruct (w_run w) as [k|] eqn:Hk.
+      + rewrite others_stop_none; [reflexivity|]. intros j wj Hj _ h Hinh.
+        assert (X : (match w_holds wj with [] => false | _ => true end) = false).
+        { destruct (match w_holds wj with [] => false | _ => true end) eqn:Y; [|reflexivity].
+          assert (existsb (fun w => match w_holds w with [] => false | _ => true end) (g_ws gs) = true)
+            by (apply existsb_exists; exists wj; split; [eapply nth_error_In; eauto | exact Y]). congruence. }
+        destruct (w_holds wj); [destruct Hinh | discriminate].
+      + destruct (w_queue w); [discriminate | reflexivity].
+  Qed.
+
+  (* ---- group order: FIFO per worker + frame ---- *)
+  Definition group_state (st : state) (c g : Z) : option cgroup :=
+    match get st c with Some cl => get (cl_consumer cl) g | None => None end.
+
+  Lemma group_state_set_other st c0 x c g : c <> c0 -> group_state (set st c0 x) c g = group_state st c g.
+  Proof. intros N. unfold group_state. rewrite get_set_neq; auto. Qed.
+
+  Lemma group_state_set_here st c b' cons' g : group_state (set st c (mkCluster b' cons')) c g = get cons' g.
+  Proof. unfold group_state. rewrite get_set_eq. reflexivity. Qed.
+
+  (* a step changes the state of group (c, g) only if it belongs to a request keyed on (c, g) - which runs on that
+     group's one worker - or it is deleteTopic's visit of that group, which removes the topic and nothing else *)
+  Lemma exec_frame guarded prio st k st' :
+    res_state (exec cf now guarded prio st k) = Some st' ->
+    forall c g, group_state st' c g = group_state st c g \/ cont_group k = Some (c, g) \/
+                (exists t p, k = KDelT2 c t (g :: p) /\ group_state st' c g = option_map (drop_topic t) (group_state st c g)).
+  Proof.
+    intros H c g. destruct k; cbn [exec] in H.
+    all: try solve [break_match_hyp H; cbn in H; inversion H; subst; clear H; unfold set_consumer, ensure_group; auto;
+                    match goal with
+                    | Hc : get ?s ?c0 = Some ?cl |- context [set ?s ?c0 _] =>
+                        destruct (Z.eq_dec c c0) as [->|Nc]; [|left; apply group_state_set_other; exact Nc];
+                        rewrite group_state_set_here; unfold group_state at 1; rewrite Hc;
+                        match goal with
+                        | |- context [cont_group (_ _ ?g0)] => idtac
+                        | _ => idtac
+                        end
+                    end;
+                    first [ left; reflexivity
+                          | match goal with
+                            | |- get (set _ ?g0 _) _ = _ \/ _ => destruct (Z.eq_dec g g0) as [->|Ng]; [right; left; reflexivity | left; apply get_set_neq; congruence]
+                            | |- get (remove _ ?g0) _ = _ \/ _ => destruct (Z.eq_dec g g0) as [->|Ng]; [right; left; reflexivity | left; apply get_remove_neq; congruence]
+                            end ]].
+    - (* KBroker *)
+      destruct (add_broker_offset cf st c0 t p cnt off) as [s r|] eqn:E; cbn in H; inversion H; subst; clear H.
+      destruct (add_broker_effect _ _ _ _ _ _ _ _ _ E) as [->|(cl & b' & Hg & ->)]; [auto|]. left.
+      destruct (Z.eq_dec c c0) as [->|Nc]; [|apply group_state_set_other; exact Nc].
+      rewrite group_state_set_here. unfold group_state. rewrite Hg. reflexivity.
+    - (* KDelT2 *)
+      break_match_hyp H; cbn in H; inversion H; subst; clear H; unfold set_consumer.
+      all: destruct (Z.eq_dec c c0) as [->|Nc]; [|left; apply group_state_set_other; exact Nc].
+      all: match goal with
+           | Hc : get ?s ?cc = Some ?cl |- context [updg (cl_consumer ?cl) ?z ?f] =>
+               assert (A : forall b', group_state (set s cc (mkCluster b' (updg (cl_consumer cl) z f))) cc g = get (updg (cl_consumer cl) z f) g)
+                 by (intros; apply group_state_set_here);
+               assert (B : group_state s cc g = get (cl_consumer cl) g) by (unfold group_state; rewrite Hc; reflexivity);
+               rewrite get_updg in A; destruct (z =? g) eqn:Ez;
+               [apply Z.eqb_eq in Ez; subst z; right; right; do 2 eexists; split; [reflexivity | rewrite A, B; reflexivity]
+               |left; rewrite A, B; reflexivity]
+           end.
+    - (* KFetchTopic *)
+      destruct (fetch_topic st c0 t) as [s r|] eqn:E; cbn in H; inversion H; subst; clear H.
+      apply fetch_topic_state in E. subst. auto.
+  Qed.
+End Top.
+
+Section Top2.
+  Variable cf : config.
+  Variable now : Z.
+  Variable guarded : bool.
+
+  (* one scheduler step seen from outside: only worker i changes; its queue loses at most its head (and only when it
+     was idle); delivered replies are only ever appended to *)
+  Lemma sched_step_shape gs i gs' t :
+    sched_step cf now guarded gs i = (gs', t) ->
+    gs' = gs \/ (g_ws gs' = g_ws gs /\ g_st gs' = g_st gs) \/
+    exists w w', nth_error (g_ws gs) i = Some w /\ g_ws gs' = set_nth (g_ws gs) i w' /\
+                 (exists l, w_out w' = w_out w ++ l) /\
+                 ((w_queue w' = w_queue w) \/ (w_run w = None /\ exists r, w_queue w = r :: w_queue w')).
+  Proof.
+    intros H. unfold sched_step in H. destruct (g_crashed gs) eqn:Hc; [inversion H; auto|].
+    destruct (nth_error (g_ws gs) i) as [w|] eqn:Hi; [|inversion H; auto].
+    destruct (w_run w) as [k|] eqn:Hk.
+    - destruct (others_stop (wants k) (g_ws gs) O i); [inversion H; auto|].
+      destruct (exec cf now guarded (hd [] (g_prios gs)) (g_st gs) k) as [st' k'|st' rep|]; inversion H; subst; clear H.
+      + right; right. exists w. eexists. split; [reflexivity|]. split; [reflexivity|]. cbn. split; [exists []; apply app_nil_end | auto].
+      + right; right. exists w. eexists. split; [reflexivity|]. split; [reflexivity|]. cbn. split; [|auto].
+        unfold push_reply. destruct rep; eauto; exists []; apply app_nil_end.
+      + right; left. cbn. auto.
+    - destruct (w_queue w) as [|r q] eqn:Hq; [inversion H; auto|].
+      destruct (start cf now (g_st gs) r) as [st' k'|st' rep|]; inversion H; subst; clear H.
+      + right; right. exists w. eexists. split; [reflexivity|]. split; [reflexivity|]. cbn. split; [exists []; apply app_nil_end|].
+        right. split; [exact Hk|]. eauto.
+      + right; right. exists w. eexists. split; [reflexivity|]. split; [reflexivity|]. cbn. split.
+        * unfold push_reply. destruct rep; eauto; exists []; apply app_nil_end.
+        * right. split; [exact Hk|]. eauto.
+      + right; left. cbn. auto.
+  Qed.
+
+  Lemma nth_error_set_nth_cases {A} (l : list A) i x j y :
+    nth_error (set_nth l i x) j = Some y -> (j = i /\ y = x) \/ (j <> i /\ nth_error l j = Some y).
+  Proof.
+    intros H. destruct (Nat.eq_dec i j) as [->|N].
+    - destruct (lt_dec j (length l)) as [L|L].
+      + rewrite sn_eq in H by exact L. inversion H. auto.
+      + assert (nth_error (set_nth l j x) j = None) by (apply nth_error_None; rewrite sn_length; lia). congruence.
+    - rewrite sn_neq in H by exact N. auto.
+  Qed.
+
+  (* FIFO: in every reachable state each worker's queue is a suffix of the queue it was given, and delivered replies
+     are never changed afterwards (the list only grows) *)
+  Lemma sched_run_fifo sched : forall gs gs' ts,
+    sched_run cf now guarded gs sched = (gs', ts) ->
+    forall j w', nth_error (g_ws gs') j = Some w' ->
+      exists w, nth_error (g_ws gs) j = Some w /\ (exists pre, w_queue w = pre ++ w_queue w') /\ (exists l, w_out w' = w_out w ++ l).
+  Proof.
+    induction sched as [|i rest IH]; intros gs gs' ts H j w' Hj; cbn in H.
+    - inversion H; subst. exists w'. split; [exact Hj|]. split; [exists []; reflexivity | exists []; apply app_nil_end].
+    - destruct (sched_step cf now guarded gs i) as [gs1 t] eqn:E1.
+      destruct (sched_run cf now guarded gs1 rest) as [gs2 ts2] eqn:E2. inversion H; subst.
+      destruct (IH gs1 gs' ts2 E2 j w' Hj) as (w1 & Hw1 & (pre1 & Hq1) & (l1 & Ho1)).
+      destruct (sched_step_shape gs i gs1 t E1) as [Eq|[[Eq _]|(w & wn & Hi & Hws & (l0 & Ho) & Hq)]].
+      + subst gs1. exists w1. eauto.
+      + rewrite Eq in Hw1. exists w1. eauto.
+      + rewrite Hws in Hw1. destruct (nth_error_set_nth_cases _ _ _ _ _ Hw1) as [[-> ->]|[N Hw1']].
+        * exists w. split; [exact Hi|]. split.
+          -- destruct Hq as [Hq|[_ (r & Hq)]]; [exists pre1; congruence | exists (r :: pre1); rewrite Hq, Hq1; reflexivity].
+          -- exists (l0 ++ l1). rewrite Ho1, Ho, app_assoc. reflexivity.
+        * exists w1. eauto.
+  Qed.
+
+  (* frame at the level of global states *)
+  Lemma sched_step_frame gs i gs' t c g :
+    sched_step cf now guarded gs i = (gs', t) ->
+    group_state (g_st gs') c g = group_state (g_st gs) c g \/
+    exists w k, nth_error (g_ws gs) i = Some w /\ w_run w = Some k /\
+      (cont_group k = Some (c, g) \/
+       exists tp p, k = KDelT2 c tp (g :: p) /\ group_state (g_st gs') c g = option_map (drop_topic tp) (group_state (g_st gs) c g)).
+  Proof.
+    intros H. unfold sched_step in H. destruct (g_crashed gs); [inversion H; auto|].
+    destruct (nth_error (g_ws gs) i) as [w|] eqn:Hi; [|inversion H; auto].
+    destruct (w_run w) as [k|] eqn:Hk.
+    - destruct (others_stop (wants k) (g_ws gs) O i); [inversion H; auto|].
+      destruct (exec cf now guarded (hd [] (g_prios gs)) (g_st gs) k) as [st' k'|st' rep|] eqn:Hex; inversion H; subst; clear H; cbn [g_st]; auto.
+      all: assert (X : res_state (exec cf now guarded (hd [] (g_prios gs)) (g_st gs) k) = Some st') by (rewrite Hex; reflexivity).
+      all: destruct (exec_frame cf now guarded (hd [] (g_prios gs)) (g_st gs) k st' X c g) as [F|[F|F]];
+        [left; exact F | right; exists w, k; auto | right; exists w, k; auto].
+    - destruct (w_queue w) as [|r q]; [inversion H; auto|].
+      destruct (start cf now (g_st gs) r) as [st' k'|st' rep|] eqn:Hst; inversion H; subst; clear H; cbn [g_st]; auto.
+      all: left; f_equal; apply (start_state cf now (g_st gs) r); rewrite Hst; reflexivity.
+  Qed.
+
+  (* ---- replies ---- *)
+  Definition lag_ok (l : list (Z * list cpart)) : Prop :=
+    forall t cps cp, In (t, cps) l -> In cp cps ->
+      match cp_brokers cp, last (cp_offsets cp) None with
+      | b0 :: rest, Some lo => cp_lag cp = current_lag (last (b0 :: rest) b0) (co_offset lo)
+      | _, _ => True
+      end.
+
+  Definition snap_fresh (snap : list (Z * list cpart)) : Prop :=
+    forall t cps cp, In (t, cps) snap -> In cp cps -> cp_brokers cp = [].
+
+  Lemma snapshot_fresh grp : snap_fresh (snapshot_group grp).
+  Proof.
+    intros t cps cp Hin Hcp. unfold snapshot_group in Hin. apply in_map_iff in Hin. destruct Hin as ([t0 ps] & E & _).
+    inversion E; subst. apply in_map_iff in Hcp. destruct Hcp as (pr & <- & _). reflexivity.
+  Qed.
+
+  Lemma add_lag_g_ok r cp :
+    match cp_brokers (add_lag_g r cp), last (cp_offsets (add_lag_g r cp)) None with
+    | b0 :: rest, Some lo => cp_lag (add_lag_g r cp) = current_lag (last (b0 :: rest) b0) (co_offset lo)
+    | _, _ => True
+    end.
+  Proof.
+    unfold add_lag_g. destruct (cp_offsets cp) as [|o os] eqn:Eo; cbv beta iota zeta.
+    - destruct (somes r); cbn [cp_brokers cp_offsets]; [exact I|]. cbn [last]. exact I.
+    - destruct (somes r) as [|b0 bs] eqn:Eb; cbv beta iota; [cbn [cp_brokers]; exact I|].
+      destruct (last (o :: os) None) as [lo|] eqn:El; cbn [cp_brokers cp_offsets cp_lag]; rewrite El; [reflexivity | exact I].
+  Qed.
+
+  Lemma add_lags_g_ok tl : forall cps i cp,
+    (forall x, In x cps -> cp_brokers x = []) -> In cp (add_lags_g tl i cps) ->
+    match cp_brokers cp, last (cp_offsets cp) None with
+    | b0 :: rest, Some lo => cp_lag cp = current_lag (last (b0 :: rest) b0) (co_offset lo)
+    | _, _ => True
+    end.
+  Proof.
+    induction cps as [|x xs IH]; intros i cp Hf Hin; cbn in Hin; [destruct Hin|].
+    destruct Hin as [<-|Hin].
+    - destruct (nth_error tl i); [apply add_lag_g_ok | rewrite (Hf x (or_introl eq_refl)); exact I].
+    - apply (IH (S i)); [intros y Hy; apply Hf; right; exact Hy | exact Hin].
+  Qed.
+
+  Lemma fetch_lags_ok broker snap : snap_fresh snap -> lag_ok (fetch_topics_lags_g broker snap).
+  Proof.
+    intros Hf t cps cp Hin Hcp. unfold fetch_topics_lags_g in Hin. apply in_map_iff in Hin.
+    destruct Hin as (tc & E & Hin0). destruct tc as [t0 cps0]. cbn [fst snd] in E.
+    assert (Ec : cps = match get broker t0 with None => cps0 | Some tl => add_lags_g tl 0 cps0 end) by congruence.
+    subst cps. clear E. destruct (get broker t0) as [tl|].
+    - eapply add_lags_g_ok; [|exact Hcp]. intros x Hx. eapply Hf; eauto.
+    - rewrite (Hf t0 cps0 cp Hin0 Hcp). exact I.
+  Qed.
+
+  (* the snapshot data itself is what the reply carries: the second half only fills in broker offsets and the lag *)
+  Definition strip (cp : cpart) := (cp_offsets cp, cp_owner cp, cp_client cp).
+
+  Lemma add_lag_g_strip r cp : strip (add_lag_g r cp) = strip cp.
+  Proof.
+    unfold add_lag_g, strip. destruct (cp_offsets cp) as [|o os] eqn:Eo; cbv beta iota zeta.
+    - destruct (somes r); cbn [cp_offsets cp_owner cp_client]; reflexivity.
+    - destruct (somes r); cbv beta iota; [cbn [cp_offsets cp_owner cp_client]; reflexivity|].
+      destruct (last (o :: os) None); cbn [cp_offsets cp_owner cp_client]; reflexivity.
+  Qed.
+
+  Lemma add_lags_g_strip tl : forall cps i, map strip (add_lags_g tl i cps) = map strip cps.
+  Proof.
+    induction cps as [|x xs IH]; intros i; cbn [add_lags_g map]; [reflexivity|]. rewrite IH. f_equal.
+    destruct (nth_error tl i); [apply add_lag_g_strip | reflexivity].
+  Qed.
+
+  Lemma fetch_lags_strip broker snap :
+    map (fun tc => (fst tc, map strip (snd tc))) (fetch_topics_lags_g broker snap) = map (fun tc => (fst tc, map strip (snd tc))) snap.
+  Proof.
+    unfold fetch_topics_lags_g. rewrite map_map. apply map_ext. intros [t cps]. cbn. f_equal.
+    destruct (get broker t); [apply add_lags_g_strip | reflexivity].
+  Qed.
+End Top2.
+
+Section Replies.
+  Variable cf : config.
+  Variable now : Z.
+
+  (* the snapshot is one instant of the group: taken in one atomic step from the group's value at that moment *)
+  Lemma snapshot_instant prio st c g st' k' :
+    exec cf now true prio st (KFetchCons2 c g) = SNext st' k' ->
+    st' = st /\ exists grp, group_state st c g = Some grp /\ k' = KFetchCons3 c (snapshot_group grp).
+  Proof.
+    cbn [exec]. intros H. unfold group_state. destruct (get st c) as [cl|]; [|discriminate].
+    destruct (get (cl_consumer cl) g) as [grp|]; [|discriminate]. inversion H. split; [reflexivity|]. eauto.
+  Qed.
+
+  Lemma exec_next_fresh prio st k st' c snap :
+    exec cf now true prio st k = SNext st' (KFetchCons3 c snap) -> snap_fresh snap.
+  Proof. intros H. destruct k; cbn [exec] in H; break_match_hyp H; inversion H; subst. apply snapshot_fresh. Qed.
+
+  Lemma exec_done_reply prio st k st' l :
+    exec cf now true prio st k = SDone st' (RConsumer l) ->
+    exists c snap cl, k = KFetchCons3 c snap /\ get st c = Some cl /\ l = fetch_topics_lags_g (cl_broker cl) snap.
+  Proof.
+    intros H. destruct k; cbn [exec] in H; try solve [break_match_hyp H; inversion H].
+    - destruct (add_broker_offset cf st c t p cnt off) eqn:E; inversion H; subst.
+      unfold add_broker_offset in E. break_match_hyp E; inversion E.
+    - destruct (fetch_topic st c t) eqn:E; inversion H; subst. unfold fetch_topic in E. break_match_hyp E; inversion E.
+    - destruct (get st c) as [cl|] eqn:E; inversion H; subst. exists c, snap, cl. auto.
+  Qed.
+
+  Lemma start_not_consumer st r st' l : start cf now st r <> SDone st' (RConsumer l).
+  Proof. unfold start. destruct r; intros H; break_match_hyp H; inversion H. Qed.
+
+  Definition inv_reply (gs : gstate) : Prop :=
+    (forall i w c snap, nth_error (g_ws gs) i = Some w -> w_run w = Some (KFetchCons3 c snap) -> snap_fresh snap) /\
+    (forall i w l, nth_error (g_ws gs) i = Some w -> In (RConsumer l) (w_out w) -> lag_ok l).
+
+  Lemma inv_reply_step gs i gs' t : inv_reply gs -> sched_step cf now true gs i = (gs', t) -> inv_reply gs'.
+  Proof.
+    intros [Hf Hr] H. unfold sched_step in H. destruct (g_crashed gs); [inversion H; subst; split; auto|].
+    destruct (nth_error (g_ws gs) i) as [w|] eqn:Hi; [|inversion H; subst; split; auto].
+    assert (G : forall (ws' : list worker) w', ws' = set_nth (g_ws gs) i w' ->
+              (forall c snap, w_run w' = Some (KFetchCons3 c snap) -> snap_fresh snap) ->
+              (forall l, In (RConsumer l) (w_out w') -> lag_ok l) ->
+              forall st' cr pr, inv_reply (mkG st' ws' cr pr)).
+    { intros ws' w' -> H1 H2 st' cr pr. split; cbn [g_ws]; intros j x; intros.
+      - destruct (nth_error_set_nth_cases _ _ _ _ _ H0) as [[-> ->]|[N Hj]]; eauto.
+      - destruct (nth_error_set_nth_cases _ _ _ _ _ H0) as [[-> ->]|[N Hj]]; eauto. }
+    destruct (w_run w) as [k|] eqn:Hk.
+    - destruct (others_stop (wants k) (g_ws gs) O i); [inversion H; subst; split; auto|].
+      destruct (exec cf now true (hd [] (g_prios gs)) (g_st gs) k) as [st' k'|st' rep|] eqn:Hex; inversion H; subst; clear H.
+      + eapply G; [reflexivity| |]; cbn.
+        * intros c snap E. inversion E; subst. eapply exec_next_fresh; eauto.
+        * intros l Hin. eapply Hr; eauto.
+      + eapply G; [reflexivity| |]; cbn.
+        * intros c snap E. discriminate.
+        * intros l Hin. unfold push_reply in Hin.
+          assert (X : In (RConsumer l) (w_out w) \/ rep = RConsumer l).
+          { destruct rep; auto; apply in_app_or in Hin; destruct Hin as [Hin|[Hin|[]]]; auto; discriminate. }
+          destruct X as [X | ->]; [eapply Hr; eauto|].
+          destruct (exec_done_reply _ _ _ _ _ Hex) as (c & snap & cl & -> & Hg & ->).
+          apply fetch_lags_ok. eapply Hf; eauto.
+      + split; cbn; eauto.
+    - destruct (w_queue w) as [|r q]; [inversion H; subst; split; auto|].
+      destruct (start cf now (g_st gs) r) as [st' k'|st' rep|] eqn:Hst; inversion H; subst; clear H.
+      + eapply G; [reflexivity| |]; cbn.
+        * intros c snap E. inversion E; subst. exfalso. unfold start in Hst. destruct r; break_match_hyp Hst; inversion Hst.
+        * intros l Hin. eapply Hr; eauto.
+      + eapply G; [reflexivity| |]; cbn.
+        * intros c snap E. discriminate.
+        * intros l Hin. unfold push_reply in Hin.
+          assert (X : In (RConsumer l) (w_out w) \/ rep = RConsumer l).
+          { destruct rep; auto; apply in_app_or in Hin; destruct Hin as [Hin|[Hin|[]]]; auto; discriminate. }
+          destruct X as [X | ->]; [eapply Hr; eauto|]. exfalso. eapply start_not_consumer; eauto.
+      + split; cbn; eauto.
+  Qed.
+
+  (* every fetchConsumer reply ever delivered, in any schedule, is lag-consistent *)
+  Theorem conc_reply_consistent_proof st queues prios sched :
+    let gs := fst (sched_run cf now true (init_g st queues prios) sched) in
+    forall i w l, nth_error (g_ws gs) i = Some w -> In (RConsumer l) (w_out w) -> lag_ok l.
+  Proof.
+    assert (G : forall sched gs gs' ts, inv_reply gs -> sched_run cf now true gs sched = (gs', ts) -> inv_reply gs').
+    { induction sched0 as [|i rest IH]; intros gs gs' ts I H; cbn in H; [inversion H; subst; exact I|].
+      destruct (sched_step cf now true gs i) as [gs1 t] eqn:E1. destruct (sched_run cf now true gs1 rest) as [gs2 ts2] eqn:E2.
+      inversion H; subst. eapply IH; [|exact E2]. eapply inv_reply_step; eauto. }
+    destruct (sched_run cf now true (init_g st queues prios) sched) as [gs ts] eqn:E. cbn.
+    assert (I0 : inv_reply (init_g st queues prios)).
+    { unfold init_g. split; cbn [g_ws]; intros i w; intros; rewrite nth_error_map in H;
+        destruct (nth_error queues i); inversion H; subst; cbn in *; [discriminate | contradiction]. }
+    destruct (G sched _ _ _ I0 E) as [_ Hr]. exact Hr.
+  Qed.
+End Replies.
+
+(* ---------------------------------------------------------------------------------------------- *)
+(* Part 3: witnesses                                                                               *)
+(* ---------------------------------------------------------------------------------------------- *)
+Definition w_cf : config := mkConfig 2 100000 0 (fun _ => true).
+Definition w_now : Z := 1700000000.
+
+Definition pre_state (clusters : list Z) (pre : list req) : state :=
+  fold_left (fun st r => match run_alone w_cf w_now true [] 50 st r with Some (st', _) => st' | None => st end)
+            pre (init_state clusters).
+
+(* corpus/C08 case 1: deleteTopic (consumer half) ; commit ; deleteTopic (broker half) ; the topic comes back with
+   one partition ; fetchConsumer *)
+Definition w_pre : list req :=
+  [SetBrokerOffset 1 1 0 2 1000; SetBrokerOffset 1 1 1 2 1001; SetConsumerOffset 1 1 1 1 990 101 (w_now * 1000)].
+Definition w_queues : list (list req) :=
+  [[DeleteTopic 1 1]; [SetConsumerOffset 1 1 1 1 995 102 (w_now * 1000 + 1000); FetchConsumer 1 1]; [SetBrokerOffset 1 1 0 1 1100]].
+Definition w_sched : list nat := [0; 0; 0; 1; 1; 1; 1; 0; 2; 2; 1; 1; 1; 1]%nat.
+
+Lemma w_queues_wf : wf_queues w_queues.
+Proof.
+  split.
+  - intros i j qi qj ri rj c g Hi Hj Hri Hrj Gi Gj.
+    destruct i as [|[|[|i]]]; cbn in Hi; try (destruct i; discriminate); inversion Hi; subst qi;
+      cbn in Hri; repeat (destruct Hri as [<-|Hri]); try destruct Hri; cbn in Gi; try discriminate;
+      destruct j as [|[|[|j]]]; cbn in Hj; try (destruct j; discriminate); inversion Hj; subst qj;
+      cbn in Hrj; repeat (destruct Hrj as [<-|Hrj]); try destruct Hrj; cbn in Gj; try discriminate; reflexivity.
+  - intros q r Hq Hr. cbn in Hq. repeat (destruct Hq as [<-|Hq]); try destruct Hq;
+      cbn in Hr; repeat (destruct Hr as [<-|Hr]); try destruct Hr; cbn; try exact I; lia.
+Qed.
+
+(* before commit 54faa50 the schedule crashes the process; after it the same schedule runs to the end *)
+Lemma crash_before_fix :
+  g_crashed (fst (sched_run w_cf w_now false (init_g (pre_state [1] w_pre) w_queues []) w_sched)) = true /\
+  g_crashed (fst (sched_run w_cf w_now true (init_g (pre_state [1] w_pre) w_queues []) w_sched)) = false.
+Proof. vm_compute. split; reflexivity. Qed.
+
+(* corpus/C08 case 3: the commit reads the partition count, the whole deleteTopic runs, the commit then re-creates the
+   group's entry for the deleted topic.  No sequential order of the two requests ends like that. *)
+Definition l_pre : list req :=
+  [SetBrokerOffset 1 1 0 2 1000; SetBrokerOffset 1 1 1 2 1001; SetConsumerOffset 1 1 1 1 990 101 (w_now * 1000)].
+Definition l_commit : req := SetConsumerOffset 1 1 1 1 995 102 (w_now * 1000 + 1000).
+Definition l_queues : list (list req) := [[l_commit]; [DeleteTopic 1 1]].
+Definition l_sched : list nat := [0; 0; 1; 1; 1; 1; 0; 0]%nat.
+
+Definition has_topic_in (st : state) (c g t : Z) : bool :=
+  match group_state st c g with Some grp => has_topic t grp | None => false end.
+
+Definition seq2 (r1 r2 : req) : option state :=
+  match Storage.run w_cf (pre_state [1] l_pre) [(w_now, r1); (w_now, r2)] with Some (st, _) => Some st | None => None end.
+
+Lemma not_linearisable :
+  let fin := g_st (fst (sched_run w_cf w_now true (init_g (pre_state [1] l_pre) l_queues []) l_sched)) in
+  unfinished (fst (sched_run w_cf w_now true (init_g (pre_state [1] l_pre) l_queues []) l_sched)) = false /\
+  has_topic_in fin 1 1 1 = true /\
+  option_map (fun st => has_topic_in st 1 1 1) (seq2 l_commit (DeleteTopic 1 1)) = Some false /\
+  option_map (fun st => has_topic_in st 1 1 1) (seq2 (DeleteTopic 1 1) l_commit) = Some false.
+Proof. vm_compute. repeat split; reflexivity. Qed.
